@@ -26,6 +26,8 @@ func checkC11(r *Run) propMeta {
 	checkCypherWalkers(r)
 	checkSQLWalker(r)
 	checkGenericProtocol(r)
+	checkParallelLists(r, r.MustPkg("cypher/models/walk"))
+	checkReceiverCopies(r, r.MustPkg("graph"))
 	return meta
 }
 
